@@ -25,10 +25,10 @@ CLAIMED = {
                 note='OS pipe behaviour; AST scan finds print/sys.stdout.write/traceback sites only'),
     'C10': dict(design='§6 C10', technique='Lean 4 proof (refinement of the backtracking enumerator to a specification list; cursor coverage) + exact sequence diff of MarkovCracker',
                 text='level_exact: the generator emits exactly the strings of the level, once, then exhaustion, for every well-formed table; real MarkovCracker sequences (fresh and warmed shared cache) equal the model and a brute-force level set.',
-                note='cache independence is shown by correspondence with warmed caches, not yet by a Lean lemma'),
+                note='memo table: C10_cache_independent / C10_cache_history (fillC = fill for every table of true results) + C10_cache_sites (all optimizer calls sit in _fill_out_parse_tree with key (ip, length, target), regenerated from source) + direct correspondence of the table contents'),
     'C14': dict(design='§6 C14', technique='Lean 4 proof (loadBase skip = filter + rescale; case insertion) + loader correspondence + stream comparison + CLI save/restore',
                 text='Loader theorems for every grammar.txt text incl. no-M; streams compared exactly where 1-P(M) is a power of two; flags through --load by subprocess.',
-                note='stream equality over doubles holds up to rounding of the rescaling (stated)'),
+                note='C14_order_preserved: over exact rationals rescaling preserves every comparison, so with C01/C02 the skip_brute stream is the default stream without Markov pre-terminals; over doubles up to rounding of the rescaling (checked exactly where 1-P(M) is a power of two)'),
     'C16': dict(design='§6 C16', technique='Lean 4 proof (pick = interval characterisation for every draw; membership; count) + scripted-draw correspondence at every breakpoint ±1 ulp',
                 text='Draws are universally quantified model inputs; selected index iff draw in (S_{j-1}, S_j]; every word in the product of the selected groups; exactly N words.',
                 note='measure = interval length on paper; Mersenne Twister determinism trusted'),
@@ -41,9 +41,9 @@ CLAIMED = {
     'C05': dict(design='§6 C05', technique='Lean 4 proof (tiling invariant of every detector stage and of the whole pipeline for any Unicode database that preserves length under the detectors\' lower-casing) + correspondence of all detectors on generated passwords',
                 text='Theorems: for every input and every Unicode environment with length-preserving lower-casing the keyboard/e-mail/website/year/context/alpha/digit/other stages keep a tiling of the password, every section ends labelled, labels carry the section length, keyboard sections are single-layout walks of >= 4 keys. Detector tables (layouts, TLDs, year prefixes, context list) regenerated from the source each run; the real detectors compared section by section.',
                 note='CPython Unicode database enters as a parameter (validated per code point for the letters used); multiword trie contents are data'),
-    'C13': dict(design='§6 C13', technique='Lean 4 proof (e-mail/website ⇒ probability 0 and category e/w for every grammar and input; scorer = model of the detector pipeline proved tiling in C05) + real scorer vs model and vs the real guesser enumeration',
-                text='Proved for all inputs: a string in which an e-mail or website is detected scores 0 with category e/w. The keep-the-promise clause (non-zero score = probability of an emitting pre-terminal) is decided per input by comparing the real scorer with the Lean scorer model (bit-exact) and with the real guesser\'s pre-terminal enumeration on trainer-produced rulesets; the general promise theorem is partial (see DESIGN.md §6 C13).',
-                note='letters whose lower() is not inverted by upper() (title-case digraphs etc.) are the recorded known finding; OMEN level scoring is C11'),
+    'C13': dict(design='§6 C13, §11.3', technique='Lean 4 proof (the promise: non-zero score = probability of a pre-terminal of the guesser\'s grammar that emits the string, via coherence of the parser\'s lists with its sections + the C07 loader round trips + the C03 derivation lemma; e-mail/website ⇒ 0) + real scorer vs model (bit-exact) and vs real guesser enumeration',
+                text='C13_promise: for every password, Unicode environment with length-preserving lower-casing and one-to-one case mapping on the password (CaseInvAll), ruleset views loaded from the same files (Agree; shown for the loader models by C13_same_files) and any commutative probability monoid: score ≠ 0 ⇒ ∃ base structure and group indices with _find_prob = score and the password in productSpec. C13_coherent: the scorer\'s lists are the labelled sections\' texts. C13_email_web_zero. Where CaseInvAll fails the promise fails on the real code (recorded known finding).',
+                note='exact arithmetic in the theorem; over doubles the two products differ by rounding (harness tolerance 1e-12 relative); OMEN level scoring is C11; the scorer\'s own multi-word table is data (any table, universally quantified)'),
     'C06': dict(design='§6 C06', technique='Lean 4 proof (calcProbs: permutation, count/total, stable sort, sum = 1 over Rat, Markov share) + bit-exact correspondence + file-by-file recomputation',
                 text='Theorems for every counter; real calculate_probabilities compared bit for bit; every list file of real trainings equals the independently recomputed relative-frequency list of the real parser counters; determinism across hash seeds.',
                 note='float sums differ from 1 by rounding only; which items reach which counter is C05'),
